@@ -388,7 +388,7 @@ CONTENTS = st.one_of(
     st.text(alphabet='01289ABZ az,;éü点茗书', max_size=12),
     st.binary(max_size=6),
 )
-VERSIONS = [1, 40, 0, 41, -1, '1', '40', '41', 'm1', 'M1', 'M2', 'm3', 'M4', 'm5', 'M0', 'x', '', 7, 10, 27, ' 2', '2 ']
+VERSIONS = [1, 40, 0, 41, -1, -2, -3, '0', '-1', '-2', '-3', '00', '1', '40', '41', 'm1', 'M1', 'M2', 'm3', 'M4', 'm5', 'M0', 'x', '', 7, 10, 27, ' 2', '2 ']
 ERRORS = ['l', 'L', 'm', 'M', 'q', 'Q', 'h', 'H', 'x', '', '-', 'LL', ' L']
 MODES = ['numeric', 'alphanumeric', 'byte', 'kanji', 'hanzi', 'NUMERIC', 'Byte', 'Kanji', 'eci', '', 'structured', 1, 2, 4, 8, 13]
 MASKS = [0, 1, 3, 4, 7, 8, -1, '0', '7', '8', 'x', '', '3', 100]
@@ -538,9 +538,11 @@ def exclusion_grid():
     for mask in (4, 7):
         add('make_micro', '1', mask=mask)
         add('make', '1', mask=mask)  # automatic version M1: Micro QR masks are 0..3
-    for v in (0, 41, -1, 'm5', 'M0', 'x', '', '41'):
+    for v in (0, 41, -1, -2, -3, -4, 'm5', 'M0', 'x', '', '41', '0', '-1', '-2', '-3', '-4', '00', '-0', '100', 'M', 'm', '4M'):
         add('make', '1', version=v)
         add('make_sequence', '1', version=v)
+        add('make_micro', '1', version=v)
+        add('make_qr', '1', version=v)
     for sc in (0, 17, -1, 100):
         add('make_sequence', '1234567890' * 4, symbol_count=sc)
     add('make_sequence', '123')
